@@ -602,7 +602,7 @@ Definition k_is_idle (k : kstate) : bool :=
   && (match extra_waiting l with [] => true | _ => false end)
   && (os_pause_ticks (oneshot l) =? 0)
   && (lpt_timeout l =? 0)
-  && ((os_timeout (oneshot l) =? 0) || (match os_keys (oneshot l) with [] => true | _ => false end))
+  && (match os_keys (oneshot l) with [] => true | _ => false end)
   && (match active_sequences l with [] => true | _ => false end)
   && (match tap_dance_eager l with None => true | _ => false end)
   && (match action_queue l with [] => true | _ => false end)
